@@ -39,6 +39,11 @@ type Result struct {
 	Nontrivial bool             `json:"nontrivial"`
 	Note       string           `json:"note,omitempty"`
 	Sample     any              `json:"sample,omitempty"`
+	// AcceptExit/AcceptStderr: this result was written before a step that may
+	// end the process from inside; it is the run's result iff the process
+	// exits with that status and that text on stderr (see RunCLI).
+	AcceptExit   int    `json:"accept_exit,omitempty"`
+	AcceptStderr string `json:"accept_stderr,omitempty"`
 }
 
 var (
